@@ -31,6 +31,8 @@ type Profile struct {
 	MaskSites                   []string
 	NoBuggify                   bool
 	BigIDs                      bool     // some runs start from a ledger whose transaction ids are already huge
+	BigCache                    bool     // always the large compilation cache (programs stay cached for the whole run)
+	WorldVarPct                 int      // chance that a variable source of a script is bound to world
 	DropKinds                   []string // op kinds removed (input masking of an open finding)
 }
 
@@ -39,15 +41,20 @@ var allTpls = []int{tplLit, tplVar, tplMeta, tplOrdered, tplMax, tplOverdraftBou
 var profiles = map[string]Profile{
 	// C02: scarce funds, many spenders, every way of naming a source
 	"spend": {Name: "spend", MaxClients: 5, MaxOps: 3, MaxGens: 1, MaxLedgers: 1, WKind: [5]int{12, 3, 2, 2, 0},
-		Tpls:  []int{tplLit, tplVar, tplMeta, tplOrdered, tplMax, tplOverdraftBounded, tplAll, tplBalance, tplTwoSends, tplSplit, tplLit, tplVar, tplMeta},
+		Tpls:  []int{tplLit, tplVar, tplMeta, tplOrdered, tplMax, tplOverdraftBounded, tplAll, tplBalance, tplTwoSends, tplSplit, tplLit, tplVar, tplMeta, tplOrderedVars, tplOrderedVars},
 		IKPct: 0, RefPct: 0, DryPct: 3, CancelBlockedPct: 10, IKPool: 2, RefPool: 2, TargetPool: 3, FundMax: 12, AmountMax: 12},
+	// C02: one script text, many bindings -- whatever a request does to the cached, shared program
+	// (or to anything else that outlives it) meets the next requests using the same text
+	"spend-shared": {Name: "spend-shared", MaxClients: 5, MaxOps: 4, MaxGens: 1, MaxLedgers: 2, WKind: [5]int{14, 1, 1, 1, 0},
+		Tpls: []int{tplOrderedVars, tplOrderedVars, tplOrderedVars, tplVar}, WorldVarPct: 25, NoBuggify: true, BigCache: true,
+		CancelBlockedPct: 5, IKPool: 2, RefPool: 2, TargetPool: 3, FundMax: 10, AmountMax: 12},
 	"spend-faults": {Name: "spend-faults", MaxClients: 5, MaxOps: 3, MaxGens: 3, MaxLedgers: 1, WKind: [5]int{12, 3, 2, 2, 0},
-		Tpls:     []int{tplLit, tplVar, tplMeta, tplOrdered, tplMax, tplOverdraftBounded, tplAll, tplBalance, tplTwoSends},
+		Tpls:     []int{tplLit, tplVar, tplMeta, tplOrdered, tplMax, tplOverdraftBounded, tplAll, tplBalance, tplTwoSends, tplOrderedVars},
 		CrashPct: 60, WriteFailPct: 20, ReadFailPct: 20, CancelBlockedPct: 20, CancelPct: 5, IKPool: 2, RefPool: 2, TargetPool: 3, FundMax: 12, AmountMax: 12},
 	// C05: mixed writers, batch boundaries everywhere, restarts
 	"chain": {Name: "chain", MaxClients: 6, MaxOps: 4, MaxGens: 4, MaxLedgers: 2, WKind: [5]int{6, 3, 3, 3, 2},
 		Tpls:  []int{tplWorld, tplLit, tplVar, tplOverdraftUnbounded, tplSetAccountMeta},
-		IKPct: 10, RefPct: 10, DryPct: 10, CrashPct: 70, WriteFailPct: 15, ReadFailPct: 10, ClockPct: 20, IKPool: 3, RefPool: 3, TargetPool: 4, FundMax: 50, AmountMax: 5},
+		IKPct: 10, RefPct: 10, DryPct: 10, CrashPct: 70, WriteFailPct: 15, ReadFailPct: 10, ClockPct: 20, IKPool: 3, RefPool: 3, TargetPool: 4, CancelBlockedPct: 20, CancelPct: 6, FundMax: 50, AmountMax: 5},
 	"chain-nofault": {Name: "chain-nofault", MaxClients: 6, MaxOps: 4, MaxGens: 3, MaxLedgers: 2, WKind: [5]int{6, 3, 3, 3, 2},
 		Tpls:  []int{tplWorld, tplLit, tplVar, tplOverdraftUnbounded, tplSetAccountMeta},
 		IKPct: 10, RefPct: 10, DryPct: 10, ClockPct: 20, IKPool: 3, RefPool: 3, TargetPool: 4, FundMax: 50, AmountMax: 5},
@@ -62,32 +69,35 @@ var profiles = map[string]Profile{
 	// C07
 	"idem": {Name: "idem", MaxClients: 5, MaxOps: 3, MaxGens: 4, MaxLedgers: 1, WKind: [5]int{6, 3, 3, 3, 2},
 		Tpls:  []int{tplWorld, tplLit, tplVar, tplOverdraftUnbounded},
-		IKPct: 80, RefPct: 5, DryPct: 3, CrashPct: 60, WriteFailPct: 20, ReadFailPct: 10, IKPool: 2, RefPool: 2, TargetPool: 2, FundMax: 30, AmountMax: 5},
+		IKPct: 80, RefPct: 5, DryPct: 3, CrashPct: 60, WriteFailPct: 20, ReadFailPct: 10, IKPool: 2, RefPool: 2, TargetPool: 2, CancelBlockedPct: 20, CancelPct: 6, FundMax: 30, AmountMax: 5},
 	"idem-nofault": {Name: "idem-nofault", MaxClients: 5, MaxOps: 3, MaxGens: 3, MaxLedgers: 1, WKind: [5]int{6, 3, 3, 3, 2},
 		Tpls:  []int{tplWorld, tplLit, tplVar, tplOverdraftUnbounded},
 		IKPct: 80, RefPct: 5, DryPct: 3, IKPool: 2, RefPool: 2, TargetPool: 2, FundMax: 30, AmountMax: 5},
 	// C08 cache clause: few texts, tiny cache, two ledgers sharing the compiler
 	"cache": {Name: "cache", MaxClients: 6, MaxOps: 4, MaxGens: 2, MaxLedgers: 2, WKind: [5]int{10, 6, 1, 1, 0},
-		Tpls:  []int{tplWorld, tplOverdraftUnbounded, tplSetAccountMeta, tplVar, tplLit, tplWorld, tplOverdraftUnbounded},
+		Tpls:  []int{tplWorld, tplOverdraftUnbounded, tplSetAccountMeta, tplVar, tplLit, tplWorld, tplOverdraftUnbounded, tplOrderedVars, tplArith, tplPortionVar, tplMetaVar},
 		IKPct: 0, RefPct: 0, DryPct: 5, IKPool: 2, RefPool: 2, TargetPool: 3, FundMax: 100, AmountMax: 4},
+	"cache-shared": {Name: "cache-shared", MaxClients: 5, MaxOps: 4, MaxGens: 2, MaxLedgers: 2, WKind: [5]int{14, 2, 0, 1, 0},
+		Tpls: []int{tplOrderedVars, tplVar, tplArith, tplArith, tplPortionVar, tplMetaVar, tplOverdraftUnbounded}, WorldVarPct: 25, BigCache: true,
+		IKPool: 2, RefPool: 2, TargetPool: 3, FundMax: 100, AmountMax: 4},
 	// C10
 	"revert": {Name: "revert", MaxClients: 5, MaxOps: 3, MaxGens: 3, MaxLedgers: 1, WKind: [5]int{4, 4, 10, 1, 0},
 		Tpls:  []int{tplLit, tplVar, tplAll, tplTwoSends, tplSplit, tplWorld},
-		IKPct: 15, RefPct: 0, DryPct: 3, CrashPct: 40, WriteFailPct: 10, IKPool: 2, RefPool: 2, TargetPool: 3, FundMax: 12, AmountMax: 10},
+		IKPct: 15, RefPct: 0, DryPct: 3, CrashPct: 40, WriteFailPct: 10, IKPool: 2, RefPool: 2, TargetPool: 3, CancelBlockedPct: 20, CancelPct: 6, FundMax: 12, AmountMax: 10},
 	"revert-nofault": {Name: "revert-nofault", MaxClients: 5, MaxOps: 3, MaxGens: 2, MaxLedgers: 1, WKind: [5]int{4, 4, 10, 1, 0},
 		Tpls:  []int{tplLit, tplVar, tplAll, tplTwoSends, tplSplit, tplWorld},
 		IKPct: 15, RefPct: 0, DryPct: 3, IKPool: 2, RefPool: 2, TargetPool: 3, FundMax: 12, AmountMax: 10},
 	// C11
 	"ref": {Name: "ref", MaxClients: 5, MaxOps: 3, MaxGens: 3, MaxLedgers: 1, WKind: [5]int{8, 5, 1, 1, 0},
 		Tpls:  []int{tplWorld, tplLit, tplVar, tplAll},
-		IKPct: 5, RefPct: 85, DryPct: 3, CrashPct: 40, WriteFailPct: 10, ReadFailPct: 10, IKPool: 2, RefPool: 2, TargetPool: 2, FundMax: 8, AmountMax: 10},
+		IKPct: 5, RefPct: 85, DryPct: 3, CrashPct: 40, WriteFailPct: 10, ReadFailPct: 10, IKPool: 2, RefPool: 2, TargetPool: 2, CancelBlockedPct: 20, CancelPct: 6, FundMax: 8, AmountMax: 10},
 	"ref-nofault": {Name: "ref-nofault", MaxClients: 5, MaxOps: 3, MaxGens: 2, MaxLedgers: 1, WKind: [5]int{8, 5, 1, 1, 0},
 		Tpls:  []int{tplWorld, tplLit, tplVar, tplAll},
 		IKPct: 5, RefPct: 85, DryPct: 3, IKPool: 2, RefPool: 2, TargetPool: 2, FundMax: 8, AmountMax: 10},
 	// C13: every entry kind gets to be the last entry at a restart and the target of an IK retry
 	"audit": {Name: "audit", BigIDs: true, MaxClients: 3, MaxOps: 3, MaxGens: 4, MaxLedgers: 1, WKind: [5]int{4, 4, 3, 4, 4},
 		Tpls:  []int{tplWorld, tplLit, tplVar, tplSetAccountMeta, tplOverdraftUnbounded},
-		IKPct: 40, RefPct: 20, DryPct: 0, TSPct: 60, BigPct: 40, CrashPct: 70, ClockPct: 40, IKPool: 3, RefPool: 3, TargetPool: 4, FundMax: 30, AmountMax: 5},
+		IKPct: 40, RefPct: 20, DryPct: 0, TSPct: 60, BigPct: 40, CrashPct: 70, ClockPct: 40, IKPool: 3, RefPool: 3, TargetPool: 4, CancelBlockedPct: 20, CancelPct: 6, FundMax: 30, AmountMax: 5},
 	// C16
 	"events": {Name: "events", MaxClients: 5, MaxOps: 3, MaxGens: 2, MaxLedgers: 2, WKind: [5]int{5, 3, 5, 3, 3},
 		Tpls:  []int{tplWorld, tplLit, tplVar, tplSetAccountMeta, tplAll},
@@ -162,6 +172,18 @@ func genOp(t *rapid.T, p *Profile, cfg *Config) Op {
 	case "script":
 		op.Tpl = rapid.SampledFrom(p.Tpls).Draw(t, "tpl")
 		op.Src, op.Src2, op.Dst, op.Dst2 = acct("src"), acct("src2"), acct("dst"), acct("dst2")
+		wv := p.WorldVarPct
+		if wv == 0 {
+			wv = 15
+		}
+		if (op.Tpl == tplVar || op.Tpl == tplOrderedVars) && pct(t, wv, "worldVar") {
+			// a variable bound to world
+			if pct(t, 50, "worldVarWhich") {
+				op.Src = -1
+			} else {
+				op.Src2 = -1
+			}
+		}
 		op.Asset = rapid.IntRange(0, 1).Draw(t, "asset") / 1 // mostly the first asset
 		if op.Asset == 1 && !pct(t, 30, "asset2") {
 			op.Asset = 0
@@ -216,6 +238,9 @@ func GenInput(t *rapid.T, p *Profile) *Input {
 	cfg.Ledgers = rapid.IntRange(1, max(1, p.MaxLedgers)).Draw(t, "ledgers")
 	cfg.Accounts = rapid.IntRange(2, 4).Draw(t, "accounts")
 	cfg.CacheSize = rapid.SampledFrom([]int{1, 1, 1024}).Draw(t, "cache")
+	if p.BigCache {
+		cfg.CacheSize = 1024
+	}
 	cfg.BatchSize = rapid.SampledFrom([]int{1, 2, 3, 4096}).Draw(t, "batch")
 	if !p.NoBuggify {
 		nOff := rapid.IntRange(0, 4).Draw(t, "nSitesOff")
